@@ -281,7 +281,11 @@ impl DodecahedronProjection {
         crate::verif::CacheView {
             instance: self as *const Self as usize,
             face_slots: self.face_triangles.iter().map(|t| t.is_some()).collect(),
-            spherical_slots: self.spherical_triangles.iter().map(|t| t.is_some()).collect(),
+            spherical_slots: self
+                .spherical_triangles
+                .iter()
+                .map(|t| t.is_some())
+                .collect(),
         }
     }
 
